@@ -405,6 +405,29 @@ def check(model, rep):
             if not bad:
                 rep.ob('R07.4', fi, 'state coherent on every exit of ' + fi.name, True, '%d exits' % n_exits)
 
+    # ---------------------------------------------------------------- R07.12
+    # Methods that solve on the user's behalf (a base move that keeps the tool where it is re-solves the joints through self.IK): the state the
+    # solver left - solution and its pose on success, a coherent state on failure - must survive to the method's exits.
+    rep.rule('R07.12', 'Arm methods that solve through self.IK / self.constrainedIK / self.IKFree leave the solver\'s state: no store to joint vector, '
+                       'tool pose, home or screws after the solve reaches an exit without FK re-deriving the tool pose')
+    n712 = 0
+    for fi, (bad, n_exits, own) in sorted(res.items(), key=lambda kv: kv[0].name):
+        if fi.name in ('IK', 'constrainedIK', 'IKFree'):
+            continue
+        solves = [c for c in ast.walk(fi.node) if isinstance(c, ast.Call) and isinstance(c.func, ast.Attribute) and isinstance(c.func.value, ast.Name)
+                  and c.func.value.id == 'self' and c.func.attr in ('IK', 'constrainedIK', 'IKFree')]
+        if not solves:
+            continue
+        n712 += 1
+        for text, (line, ex) in sorted(bad.items()):
+            rep.ob('R07.12', fi, text, False, '%s solves through self.%s (line %d); after this store (line %s) it can leave through %s with the reported '
+                   'tool pose not equal to FK(stored joints): neither the solution nor a coherent failure state'
+                   % (fi.name, solves[0].func.attr, solves[0].lineno, line, ex), line=line)
+        if not bad:
+            rep.ob('R07.12', fi, 'state coherent on every exit of ' + fi.name, True, '%d exits' % n_exits)
+    rep.count('Arm methods solving through the IK entry points', n712)
+    rep.floor('R07.12', 'Arm methods solving through the IK entry points', n712, 1)
+
     # ---------------------------------------------------------------- R07.9
     rep.rule('R07.9', 'IKinSpaceConstrained: the pose error that can end the search is never evaluated for an unclamped joint vector - the start '
                       'vector is clamped before the first evaluation (or by the caller)')
